@@ -1244,6 +1244,12 @@ func (mgr *Manager) UpdateTag(name string, operation UpdateTagOperation) error {
 				mgr.startConverterJobIfNeeded()
 			}
 			if info.convertersUpdated {
+				// reject unknown converters before touching the tag
+				for _, converterName := range info.setConverterNames {
+					if _, ok := mgr.converters[converterName]; !ok {
+						return fmt.Errorf("unknown converter %q", converterName)
+					}
+				}
 				// detach deselected converters from tag
 				for _, converter := range tag.converters {
 					if slices.Contains(info.setConverterNames, converter.Name()) {
